@@ -66,8 +66,10 @@ func genFront(prop string) fw.Generator {
 				add(frontDesc{Kind: "roundtrip", N: i})
 			}
 			add(frontDesc{Kind: "bad-client-context"})
+			add(frontDesc{Kind: "timeout", Arg: "responds-then-stalls"}) // exactly one outcome
 		case "C05":
 			add(frontDesc{Kind: "timeout", Arg: "runtime-stalls"})
+			add(frontDesc{Kind: "timeout", Arg: "responds-then-stalls"})
 			add(frontDesc{Kind: "timeout", Arg: "extension-never-registers"})
 		case "C06":
 			for _, a := range []string{"crash-after-next", "init-error", "crash-after-response", "ext-crash"} {
@@ -166,6 +168,10 @@ func runFront(c *fw.Ctx, d frontDesc) {
 				switch mode {
 				case "runtime-stalls":
 					return sc.Stall(p)
+				case "responds-then-stalls":
+					// the answer is posted in time, but the runtime never comes back for the next event
+					pt.Respond(ev.ReqID(), respFor(ev.Body), nil)
+					return sc.Stall(p)
 				case "crash-after-next":
 					return &vh.Exit{Code: 3}
 				case "crash-after-response":
@@ -242,7 +248,14 @@ func runFront(c *fw.Ctx, d frontDesc) {
 		t0 := time.Now()
 		resp := frontInvoke(w, []byte("stall"), nil)
 		el := time.Since(t0)
-		c.Check(resp.Code == 200 && string(resp.Body) == "Task timed out after 1.00 seconds", "front_timeout_text", P+"/front/timeout-text", "timed-out invocation was not answered with the timeout message", []string{fmt.Sprint(resp.Code), string(resp.Body)})
+		if mode == "responds-then-stalls" {
+			// either the response or the timeout outcome - never both
+			onlyResp := bytes.Equal(resp.Body, respFor([]byte("stall")))
+			onlyTimeout := string(resp.Body) == "Task timed out after 1.00 seconds"
+			c.Check(resp.Code == 200 && (onlyResp || onlyTimeout), "front_response_xor_timeout", P+"/front/timeout-and-response", "an invocation answered in time by a runtime that then stalled got neither exactly the response nor exactly the timeout message", []string{fmt.Sprint(resp.Code), string(resp.Body)})
+		} else {
+			c.Check(resp.Code == 200 && string(resp.Body) == "Task timed out after 1.00 seconds", "front_timeout_text", P+"/front/timeout-text", "timed-out invocation was not answered with the timeout message", []string{fmt.Sprint(resp.Code), string(resp.Body)})
+		}
 		c.Check(el >= 995*time.Millisecond && el <= 1*time.Second+2*time.Second+1800*time.Millisecond, "front_timeout_bounded", P+"/front/timeout-duration", fmt.Sprintf("answered after %.0f ms", float64(el)/1e6), nil)
 		for _, p := range sc.ProcsOfGen(w, 1) {
 			c.Check(!p.Alive(), "front_reaped", P+"/front/not-reaped", "process still running after the timeout answer", p.Name)
